@@ -34,7 +34,7 @@ RULE = ("(a) Hypothesis token soup from an iCalendar dictionary (BEGIN:/END: wit
         "must serialise. Non-trivial: input that "
         "gets past the BEGIN of one component; distinct by hash of the input.")
 ASSUMPTIONS = ["inputs <= 8 KiB, nesting <= 64", "a CPU-time bound stands for 'terminates'"]
-REQUIRED_CLASSES = ["gen:soup", "gen:fixture", "gen:hostile", "gen:isolate", "isolate:unparsable-line", "isolate:parsable-line", "hostile:tzid", "hostile:vtimezone"]
+REQUIRED_CLASSES = ["gen:soup", "gen:fixture", "gen:hostile", "gen:isolate", "isolate:unparsable-line", "isolate:parsable-line", "hostile:tzid", "hostile:vtimezone", "hostile:extreme"]
 
 SHRINK_STRINGS = True
 TIMEOUT_S = 10.0
@@ -309,12 +309,49 @@ def fixture_cases(draw):
 
 
 HOSTILE_TZIDS = ["Europe", "..", "../../etc/passwd", "/etc/localtime", "/", "", " ", "a" * 300, "Europe/Berlin\x00", "\x00", "W. Europe Standard Time",
-                 "/Europe/Berlin", "Europe/Berlin/", "posix/Europe/Berlin", "Etc", "America/Argentina", ".", "europe/berlin", "localtime", "Factory", "UTC\n"]
+                 "/Europe/Berlin", "Europe/Berlin/", "posix/Europe/Berlin", "Etc", "America/Argentina", ".", "europe/berlin", "localtime", "Factory", "UTC\n",
+                 "a/" * 100 + "b", "a/" * 3000 + "b", "x" * 255, "x" * 256, "\u00e9" * 128, "Europe/" + "y" * 256, "a/" * 20000 + "b"]
 
 
 @st.composite
 def hostile_cases(draw):
-    what = draw(st.sampled_from(["tzid", "vtimezone", "vtimezone", "period", "nesting"]))
+    what = draw(st.sampled_from(["tzid", "vtimezone", "vtimezone", "period", "nesting", "extreme", "extreme", "vtimezone-edge"]))
+    if what == "vtimezone-edge":
+        # complete, well-formed definitions whose fields sit at the ends of their ranges (the definition is *interpreted*)
+        obs = []
+        for _ in range(draw(st.integers(1, 3))):
+            kind = draw(st.sampled_from(["STANDARD", "DAYLIGHT"]))
+            body = [f"BEGIN:{kind}", "DTSTART:" + draw(st.sampled_from(["00010101T000000", "00010101T000000", "99991231T235959", "99991231T235959", "19700101T000000", "00011231T235959", "99990101T000000", "20380119T031408"])),
+                    "TZOFFSETFROM:" + draw(st.sampled_from(["+0100", "-0100", "+1400", "-1200", "+0000", "+2359", "-2359", "+235959"])),
+                    "TZOFFSETTO:" + draw(st.sampled_from(["+0100", "-0100", "+1400", "-1200", "+0000", "+2359", "-2359"]))]
+            body += draw(st.lists(st.sampled_from(["TZNAME:X", "RRULE:FREQ=YEARLY;COUNT=3", "RRULE:FREQ=YEARLY;UNTIL=99991231T235959Z", "RRULE:FREQ=YEARLY;BYMONTH=12;BYDAY=-1SU",
+                                                    "RDATE:99991231T235959", "RDATE:00010101T000000", "RRULE:FREQ=YEARLY;INTERVAL=5000"]), max_size=2, unique=True))
+            obs += body + [f"END:{kind}"]
+        ev = ["BEGIN:VEVENT", "DTSTART;TZID=custom:" + draw(st.sampled_from(["20200101T120000", "00010101T000000", "99991231T235959"])), "END:VEVENT"]
+        tzblock = ["BEGIN:VTIMEZONE", "TZID:custom"] + obs + ["END:VTIMEZONE"]
+        lines = ["BEGIN:VCALENDAR"] + (ev + tzblock if draw(st.integers(0, 3)) == 0 else tzblock + ev) + ["END:VCALENDAR"]
+        return {"gen": "hostile", "what": "vtimezone", "lines": lines}
+    if what == "extreme":
+        # typed values at and just beyond the ends of what Python's date/time types can represent
+        n = draw(st.sampled_from([999999997, 999999998, 999999999, 1000000000, 142857142, 142857143, 99999999999]))
+        unit = draw(st.sampled_from(["D", "W", "DT1S", "DT23H59M59S", "DT24H", "DT86399S", "DT86400S"]))
+        if unit == "W":
+            n = draw(st.sampled_from([142857141, 142857142, 142857143, n]))
+        dur = draw(st.sampled_from(["", "-", "+"])) + f"P{n}{unit}"
+        edge_dt = draw(st.sampled_from(["00010101T000000", "00010101T000000Z", "99991231T235959", "99991231T235959Z", "00010101", "99991231", "00010102T000000Z", "99991230T235959Z"]))
+        small = draw(st.sampled_from(["P1D", "-P1D", "PT1S", "-PT1S", "P1W", "-P2D", dur]))
+        zone = draw(st.sampled_from(["Europe/Berlin", "Pacific/Kiritimati", "Pacific/Niue", "America/New_York", "UTC", "Etc/GMT+12", "Etc/GMT-14"]))
+        body = [f"DURATION:{dur}", f"DTSTART:{edge_dt}"]
+        alarm = ["BEGIN:VALARM", "ACTION:DISPLAY", f"TRIGGER:{draw(st.sampled_from([dur, small]))}", f"DURATION:{draw(st.sampled_from([dur, small]))}", "REPEAT:2", "END:VALARM"]
+        extra = draw(st.lists(st.sampled_from([
+            f"RDATE;VALUE=PERIOD:{edge_dt}/{small}", f"RDATE;VALUE=PERIOD:{edge_dt}/{dur}", f"FREEBUSY:{edge_dt}/{small}", f"EXDATE;TZID={zone}:{edge_dt.rstrip('Z')}",
+            f"RECURRENCE-ID;TZID={zone}:{edge_dt.rstrip('Z')}", f"DTEND;TZID={zone}:{edge_dt.rstrip('Z')}", f"DUE:{edge_dt}", f"TRIGGER;VALUE=DATE-TIME:{edge_dt}",
+            f"RRULE:FREQ=YEARLY;UNTIL={edge_dt}", "RRULE:FREQ=DAILY;COUNT=99999999999999999999", "RRULE:FREQ=DAILY;INTERVAL=99999999999999999999", "SEQUENCE:99999999999999999999999999",
+            "PRIORITY:-99999999999999999999", "GEO:1e400;-1e400", "GEO:nan;inf", "PERCENT-COMPLETE:1e3", "TZOFFSETFROM:+9959", "TZOFFSETTO:-995959", "X-A;VALUE=FLOAT:1e999",
+            "X-B;VALUE=UTC-OFFSET:+2360", "X-C;VALUE=DURATION:" + dur, "X-D;VALUE=PERIOD:" + edge_dt + "/" + dur, "X-E;VALUE=DATE-TIME:" + edge_dt, "X-F;VALUE=TIME:240000", "X-G;VALUE=TIME:235960Z"]), max_size=4))
+        comp = draw(st.sampled_from(["VEVENT", "VTODO", "VJOURNAL", "VFREEBUSY"]))
+        lines = ["BEGIN:VCALENDAR", f"BEGIN:{comp}"] + body + extra + (alarm if comp in ("VEVENT", "VTODO") else []) + [f"END:{comp}", "END:VCALENDAR"]
+        return {"gen": "hostile", "what": "extreme", "lines": lines}
     if what == "tzid":
         tzid = draw(st.sampled_from(HOSTILE_TZIDS)).replace("\n", "").replace("\r", "")
         prop = draw(st.sampled_from(["DTSTART", "DTEND", "RDATE", "EXDATE", "RECURRENCE-ID", "DUE"]))
@@ -333,7 +370,11 @@ def hostile_cases(draw):
                     "TZOFFSETTO:+0100", "TZOFFSETTO:+2400", "TZOFFSETFROM:-2359", "TZOFFSETFROM:+0200", "TZNAME:CET", "TZNAME:CET", "TZNAME:CEST",
                     "RRULE:FREQ=YEARLY;BYDAY=-1SU;BYMONTH=10", "RRULE:BYDAY=-1SU;BYMONTH=10", "RRULE:FREQ=YEARLY;UNTIL=19801025T010000Z;BYMONTH=10",
                     "RRULE:FREQ=YEARLY;COUNT=3", "RRULE:FREQ=SECONDLY", "RRULE:FREQ=HOURLY;INTERVAL=0", "RRULE:FREQ=YEARLY;INTERVAL=0;BYMONTH=10", "RDATE:19711025T030000", "RDATE;VALUE=DATE:19711025", "RDATE;VALUE=PERIOD:19711025T030000/PT1H",
-                    "RRULE:FREQ=YEARLY", "X-FOO:bar", "COMMENT:x", "TZOFFSETTO:+0100", "DTSTART:19701025T030000"]), max_size=7)):
+                    "RRULE:FREQ=YEARLY", "X-FOO:bar", "COMMENT:x", "TZOFFSETTO:+0100", "DTSTART:19701025T030000",
+                    # the ends of the representable range
+                    "DTSTART:00010101T000000", "DTSTART:99991231T235959", "TZOFFSETFROM:+0100", "TZOFFSETFROM:-0100", "TZOFFSETTO:-1400", "TZOFFSETFROM:+1400",
+                    "RDATE:00010101T000000", "RDATE:99991231T235959", "RRULE:FREQ=YEARLY;UNTIL=99991231T235959Z", "RRULE:FREQ=YEARLY;UNTIL=00010101T000000Z",
+                    "RRULE:FREQ=YEARLY;COUNT=2", "DTSTART:00010101T000000", "DTSTART:99991231T235959"]), max_size=7)):
                 body.append(ln)
             body.append(f"END:{kind}")
             obs += body
